@@ -37,6 +37,13 @@ def configs(tier, seed):
             for branch in ("pre", "fn"):
                 cfgs.append(dict(n=n, nu=nu, nq=1, K=2, part=list(part), branch=branch, semi=True,
                                  weight=10 ** (n + nu) * 4, wstride=53))
+    # the classifier object had an earlier life (fit on other symbolic data + one prediction) before this fit:
+    # "for a fitted classifier" holds for a re-fitted object too (supervised and semi-supervised)
+    for n, nu, h in ([(2, 0, 2), (2, 1, 2)] if tier == "quick" else [(2, 0, 2), (2, 1, 2), (3, 0, 3), (2, 1, 3), (3, 1, 3)]):
+        for part in sup.partitions(n, 2, 2):
+            for branch in ("pre", "fn"):
+                cfgs.append(dict(n=n, nu=nu, nq=1, K=2, part=list(part), branch=branch, semi=bool(nu), hist=h,
+                                 weight=10 ** (n + nu + h) * 4, wstride=53))
     # state-injected: arbitrary forest (symbolic costs and labels, every conquest order with non-decreasing
     # cost -- the post-condition C01 establishes), one or two symbolic queries
     for n in ([2, 3, 4, 5] if tier == "quick" else [2, 3, 4, 5, 6]):
@@ -55,7 +62,7 @@ def signature(prop, cfg, viol):
 
 def describe(v, tier):
     v.bounds = dict(n_training_samples="2..4 (quick) / 2..5 (thorough)", queries_per_batch="1..2",
-                    harness="end-to-end: real fit, then real predict on symbolic query distance vectors; and state-injected: "
+                    harness="end-to-end: real fit, then real predict on symbolic query distance vectors (also on an object that was fitted on other data and used for a prediction before); and state-injected: "
                             "arbitrary forest with n<=5 (quick) / n<=6 (thorough) nodes, symbolic costs/labels, every cost-compatible conquest order",
                     weight_branches=["pre_computed_distance matrix", "distance_fn callable"])
     v.assumptions = ["0 <= W[i][j] < sys.float_info.max, symmetric; query distances are further free entries of W "
